@@ -252,6 +252,18 @@ class Interp:
             return BV(ii[0], int.from_bytes(b, 'little'), signed=ii[1])
         if ty == 'f64':
             return struct.unpack('<d', b)[0]
+        if ty == 'f32':
+            return struct.unpack('<f', b)[0]
+        if ty == 'bool':
+            return BV(1, b[0] & 1)
+        if ty.startswith('std::option::Option<') and ty.endswith('>'):
+            inner = ty[len('std::option::Option<'):-1].strip()
+            if inner in ('f64', 'f32', 'bool') or self.int_info(inner):
+                # tag word (same size as the payload for these scalars) followed by the payload
+                half = len(b) // 2
+                if int.from_bytes(b[:half], 'little') == 0:
+                    return Agg('adt:std::option::Option', 0, [])
+                return Agg('adt:std::option::Option', 1, [self.decode_bytes(b[half:], inner)])
         raise Unsupported('decode const of type %s' % ty)
 
     def operand(self, fr, op):
@@ -277,7 +289,7 @@ class Interp:
                 return BV(1, bits=[TOP])
             raise Unsupported('XorSet under %s' % op)
         if isinstance(a, Agg) and isinstance(b, Agg) and op in ('Eq', 'Ne'):
-            r = (a == b)
+            r = _deep_eq(self, a, b)
             return bv_bool(r if op == 'Eq' else not r)
         if not (isinstance(a, BV) and isinstance(b, BV)):
             raise Unsupported('binop %s on %r, %r' % (op, a, b))
@@ -907,10 +919,10 @@ def f_ne(I, a, t, c):
         r = _enum_scalar_eq(I, x, y)
         if r is not None:
             return bv_bool(not r)
-        if isinstance(x, Agg) and isinstance(y, Agg):
-            return bv_bool(not (x == y))
         if isinstance(x, BV) and isinstance(y, BV):
             return I.binop('Ne', x, y)
+        if isinstance(x, Agg) and isinstance(y, Agg):
+            return bv_bool(not _deep_eq(I, x, y))
     return NotImplemented
 
 
@@ -923,11 +935,35 @@ def f_eq(I, a, t, c):
         r = _enum_scalar_eq(I, x, y)
         if r is not None:
             return bv_bool(r)
-        if isinstance(x, Agg) and isinstance(y, Agg):
-            return bv_bool(x == y)
         if isinstance(x, BV) and isinstance(y, BV):
             return I.binop('Eq', x, y)
+        if isinstance(x, Agg) and isinstance(y, Agg):
+            return bv_bool(_deep_eq(I, x, y))
     return NotImplemented
+
+
+def _deep_eq(I, x, y):
+    """structural equality as the derived PartialEq implementations compute it: references are followed (comparing `&T` compares
+    the referents), aggregates field by field; anything that cannot be decided raises Unsupported - never a guess"""
+    x = deref_all(I, x) if isinstance(x, RefV) else x
+    y = deref_all(I, y) if isinstance(y, RefV) else y
+    if isinstance(x, BV) and isinstance(y, BV):
+        return bool(I.conc(I.binop('Eq', x, y), 'equality of aggregates'))
+    if isinstance(x, float) and isinstance(y, float):
+        return x == y
+    if isinstance(x, StrV) and isinstance(y, StrV):
+        return [c if isinstance(c, str) else chr(I.conc(c)) for c in x.chars] == [c if isinstance(c, str) else chr(I.conc(c)) for c in y.chars]
+    if isinstance(x, Agg) and isinstance(y, Agg):
+        if x.kind != y.kind:
+            raise Unsupported('equality of %s and %s' % (x.kind, y.kind))
+        if x.variant != y.variant or len(x.fields) != len(y.fields):
+            return False
+        return all(_deep_eq(I, p, q) for p, q in zip(x.fields, y.fields))
+    if isinstance(x, str) and isinstance(y, str):
+        return x == y
+    if isinstance(x, int) and isinstance(y, int):
+        return x == y
+    raise Unsupported('equality of %r and %r' % (type(x).__name__, type(y).__name__))
 
 
 # ---- ranges / panics
@@ -1074,6 +1110,15 @@ def _iter_items(I, it):
     if isinstance(it, Agg) and it.kind == 'adt:std::ops::Range':
         lo, hi = I.conc(it.fields[0]), I.conc(it.fields[1])
         return [BV(it.fields[0].w, i) for i in range(lo, hi)]
+    if isinstance(it, Agg) and it.kind == 'adt:std::ops::RangeInclusive':
+        lo, hi = I.conc(it.fields[0]), I.conc(it.fields[1])
+        return [BV(it.fields[0].w, i) for i in range(lo, hi + 1)]
+    if isinstance(it, Agg) and it.kind == 'adt:std::option::Option':       # Option<T>: IntoIterator of zero or one item
+        return [it.fields[0]] if it.variant == 1 else []
+    if isinstance(it, Agg) and it.kind == 'adt:std::result::Result':
+        return [it.fields[0]] if it.variant == 0 else []
+    if isinstance(it, Agg) and it.kind == 'repeat':
+        raise Unsupported('unbounded iterator (repeat) consumed without a bound')
     if isinstance(it, MapV):
         return [Agg('tuple', 0, [kv, cell.v]) for (kv, cell) in it.d.values()]
     if type(it).__name__ == 'SetV':
@@ -1114,6 +1159,8 @@ def m_into_iter(I, a, t, c):
     v = a[0]
     if isinstance(v, Agg) and v.kind in ('iter', 'adt:std::ops::Range'):
         return v
+    if isinstance(v, Agg) and v.kind in ('adt:std::ops::RangeInclusive', 'adt:std::option::Option', 'adt:std::result::Result'):
+        return Agg('iter', 0, [_iter_items(I, v), 0])
     if type(v).__name__ == 'SetV':
         return Agg('iter', 0, [list(v.d.values()), 0])
     if isinstance(v, MapV):
@@ -1125,6 +1172,8 @@ def m_into_iter(I, a, t, c):
         return Agg('iter', 0, [[RefV(Cell(x, 'elem')) for x in I.load(v).d.values()], 0])
     if isinstance(v, Agg) and v.kind == 'array':
         return Agg('iter', 0, [list(v.fields), 0])
+    if isinstance(v, RefV) and v.win is None and isinstance(I.load(v), RefV):
+        return m_into_iter(I, [I.load(v)], t, c)          # a reference to a view / slice reference (e.g. `for x in row` with row: &ArrayView)
     if isinstance(v, RefV):
         cell, path, s, n = _slice(I, v)
         return Agg('iter', 0, [[RefV(cell, path + (s + i,)) for i in range(n)], 0])
